@@ -237,16 +237,18 @@ Boolean FloatRangeCheck(Double Wert, FloatType Typ) {
 }
 
 Boolean SingleBit(LargeInt Inp, LargeInt* Erg) {
+    LargeWord UInp = (LargeWord)Inp; /* logical shifts, so bit 63 alone is a single bit */
+
     *Erg = 0;
     do {
-        if (!Odd(Inp)) {
+        if (!Odd(UInp)) {
             (*Erg)++;
         }
-        if (!Odd(Inp)) {
-            Inp = Inp >> 1;
+        if (!Odd(UInp)) {
+            UInp = UInp >> 1;
         }
-    } while ((*Erg != LARGEBITS) && (!Odd(Inp)));
-    return (*Erg != LARGEBITS) && (Inp == 1);
+    } while ((*Erg != LARGEBITS) && (!Odd(UInp)));
+    return (*Erg != LARGEBITS) && (UInp == 1);
 }
 
 IntType GetSmallestUIntType(LargeWord MaxValue) {
